@@ -243,6 +243,19 @@ static void c04_case(Ctx & c, const std::vector<double> & av, bool inv_ok)
     e.mat("dr_rminus_sqn", J);
   }
   c.sink.emit(e);
+  if constexpr (kIsBase) {
+    // the class-member API has its own definitions of the left Jacobians (lie_group_base.hpp)
+    auto m = c.ev("c04");
+    m.str("api", "member").vec("a", a).num("inv", inv_ok ? 1 : 0);
+    m.mat("dr_exp", G::dr_exp(a)).mat("dl_exp", G::dl_exp(a));
+    if (inv_ok) {
+      m.mat("dr_expinv", G::dr_expinv(a)).mat("dl_expinv", G::dl_expinv(a));
+      m.mat("dr_rminus", G::dr_expinv(a));
+      const Eigen::Matrix<S, 1, DOF> J2 = a.transpose() * G::dr_expinv(a);
+      m.mat("dr_rminus_sqn", J2);
+    }
+    c.sink.emit(m);
+  }
 }
 
 static void c04_action_case(Ctx & c, const std::vector<double> & cv)
@@ -276,6 +289,18 @@ static void c05_case(Ctx & c, const std::vector<double> & av, bool inv_ok)
       e.mat("d2r_rminus_sqn", H);
     }
     c.sink.emit(e);
+    if constexpr (kIsBase) {
+      // class-member API: d2l_exp / d2l_expinv are defined in lie_group_base.hpp, not by the free functions
+      auto m = c.ev("c05");
+      m.str("api", "member").vec("a", a).num("inv", 0);
+      m.mat("d2r_exp", G::d2r_exp(a)).mat("d2l_exp", G::d2l_exp(a));
+      c.sink.emit(m);
+      if (inv_ok) {
+        auto m2 = c.ev("c05m");
+        m2.vec("a", a).mat("d2r_expinv", G::d2r_expinv(a)).mat("d2l_expinv", G::d2l_expinv(a));
+        c.sink.emit(m2);
+      }
+    }
   } else {
     (void)c;
     (void)av;
